@@ -619,11 +619,21 @@ fn do_minimize(dfa: DFA) -> DFA {
         partitions
     };
     let mut worklist = partitions.clone();
+    #[cfg(feature = "verif")]
+    crate::verif::emit(|| {
+        let blocks: Vec<String> = partitions
+            .iter()
+            .map(|id| crate::verif::set_json(&pool.lookup(*id).unwrap()))
+            .collect();
+        format!(r#"{{"ev":"init","blocks":[{}]}}"#, blocks.join(","))
+    });
     let transitions_image = dfa.make_transitions_image();
     while let Some(group_id) = worklist.iter().next() {
         let group_id = *group_id;
         worklist.remove(&group_id);
         let group = pool.lookup(group_id).unwrap();
+        #[cfg(feature = "verif")]
+        crate::verif::emit(|| format!(r#"{{"ev":"pop","group":{}}}"#, crate::verif::set_json(&group)));
         let group_min = group.min().unwrap();
         let group_max = group.max().unwrap();
 
@@ -644,6 +654,8 @@ fn do_minimize(dfa: DFA) -> DFA {
             group_transitions
         };
         for from_states in transitions_to_group.values() {
+            #[cfg(feature = "verif")]
+            crate::verif::emit(|| format!(r#"{{"ev":"input","from":{}}}"#, crate::verif::set_json(from_states)));
             let overlapping_sets: Vec<SetId> = partitions
                 .iter()
                 .filter(|set_id| !pool.lookup(**set_id).unwrap().is_disjoint(from_states))
@@ -675,6 +687,15 @@ fn do_minimize(dfa: DFA) -> DFA {
                 } else {
                     worklist.insert(remaining_states_intern_id);
                 }
+                #[cfg(feature = "verif")]
+                crate::verif::emit(|| {
+                    format!(
+                        r#"{{"ev":"split","inside":{},"outside":{},"stale":{}}}"#,
+                        crate::verif::set_json(&pool.lookup(states_to_remove_intern_id).unwrap()),
+                        crate::verif::set_json(&pool.lookup(remaining_states_intern_id).unwrap()),
+                        group_id == intern_id
+                    )
+                });
                 if group_id == intern_id {
                     break;
                 }
@@ -682,6 +703,14 @@ fn do_minimize(dfa: DFA) -> DFA {
         }
     }
 
+    #[cfg(feature = "verif")]
+    crate::verif::emit(|| {
+        let blocks: Vec<String> = partitions
+            .iter()
+            .map(|id| crate::verif::set_json(&pool.lookup(*id).unwrap()))
+            .collect();
+        format!(r#"{{"ev":"done","blocks":[{}]}}"#, blocks.join(","))
+    });
     let representative_id_from_state_id = {
         let mut representative_id_from_state_id: HashMap<StateId, StateId> = Default::default();
         for intern_id in &partitions {
